@@ -259,7 +259,7 @@ def get_field(o, i):
         return o.ptr
     if isinstance(o, Wrapper):
         return o if isinstance(o.v, Uninit) or True else o.v
-    if isinstance(o, BoxObj):
+    if isinstance(o, (BoxObj, StrBuf, ByteBuf, VecObj)):
         return o        # (box.0: Unique<T>).0: NonNull<T> ... as *const T  -> the box itself acts as the pointer
     if isinstance(o, Array):
         return o.items[i]
@@ -634,6 +634,8 @@ class Interp:
                 return inner
             if isinstance(inner, Pin):
                 return inner.ptr
+            if isinstance(inner, (StrBuf, ByteBuf)):
+                return inner.as_ref()
             if isinstance(inner, BoxObj):
                 if isinstance(inner.v, (StrBuf,)) :
                     return inner.v.as_ref()
